@@ -89,6 +89,11 @@ def run(ctx):
     specs = flows.single_fault_specs("C07", cert, pos, ctx.tier, ctx.seed, attempts=2, quick_stride=7, pre_modes=("none",),
                                      dense_kinds=tuple({k for k, _, m in pos if m == "POST"}), dense_cells=[("none", False)])
     specs += flows.multi_fault_specs("C07", cert, pos, 300 if ctx.tier == "thorough" else 30, ctx.seed + 1, attempts=3)
+    # objects that never reach the awaited status, the CA sending Retry-After with every poll answer: the attempt still has to end
+    for ca in ({"authz_polls": 10 ** 6}, {"order_polls": 10 ** 6}, {"ready_polls": 10 ** 6}):
+        for ra in (None, 0, 2):
+            specs.append(flowcheck.prepare(dict(tag="C07/p%03d" % len(specs), certs=[cert], attempts=2, endpoints={"A": {"ca": dict(ca, retry_after=ra)}},
+                                                meta={"family": "object never ready", "ca": dict(ca, retry_after=ra)})))
     specs += hook_exit_specs(ctx.tier, ctx.seed)
     specs += fault_and_hook_specs(ctx.tier, ctx.seed, pos)
     specs += multi_cert_specs(ctx.tier, ctx.seed)
@@ -107,7 +112,7 @@ def run(ctx):
            "model": mc, "trace_validation": stats, "families": fam, "attempts_observed": attempts, "failed_attempts_observed": failed,
            "model_fidelity": {"all_labels_clean": not fb, "bad": [({k: v for k, v in results[i]["meta"].items() if k not in ("flow", "healthy")}, l) for i, l, _ in fb[:5]]},
            "exhaustive": False,
-           "rule": "single faults at every request position (quick: every ACME error type at every POST position answered once, the other faults as a rotating 1/7 sample; 2 attempts each: the pause is measured in virtual time between AttemptEnd(fail) and the next "
+           "rule": "objects that never become ready (with and without Retry-After on the poll answers); single faults at every request position (quick: every ACME error type at every POST position answered once, the other faults as a rotating 1/7 sample; 2 attempts each: the pause is measured in virtual time between AttemptEnd(fail) and the next "
                    "AttemptStart), random multi-fault runs over 3 attempts, every hook position x exit code/signal x allow_failure, 1..6 certificates on one "
                    "account and endpoint with failing subsets (healthy ones must be issued)"}
     return {"coverage": cov, "assumptions": [
